@@ -73,8 +73,10 @@ def armReady2 (s : S2) (w : Int) : S2 :=
   { s with nextRunMs := w, armed := some (.ready, w), started := true }
 
 def rearmIfEarlier2 (s : S2) (when : Int) : S2 :=
-  if !s.started || decide (s.startupSent < Gen.startupQueries) then s
-  else if max when s.earliest < s.nextRunMs then armReady2 s (max when s.earliest) else s
+  if Gen.Browser.rearm_guard (!s.started) s.startupSent then s
+  else if Gen.Browser.rearm_lt (Gen.Browser.rearm_when when s.earliest) s.nextRunMs then
+    armReady2 s (Gen.Browser.rearm_when when s.earliest)
+  else s
 
 /-- `_schedule_ptr_query`: `dict[alias] = query; heappush(heap, query); _rearm_if_earlier` -/
 def schedule2 (s : S2) (q : Q) : S2 :=
